@@ -137,6 +137,62 @@ def depth_vcs() -> List[core.VC]:
     return vcs
 
 
+def roots_vcs(prop: str = PROP) -> List[core.VC]:
+    """_get_all_root_indices over a node map with two arbitrary distinct keys and arbitrary node contents: a key is returned iff it is
+    not an event id (event ids are >= 0, thread roots are stored under -abs(tid)); and the whole-graph depth pass starts _bfs at every
+    returned root with parent depth -2, so that a root has depth -1 and a top-level event depth 0 = its number of ancestors."""
+    import copy
+
+    name = f"{prop}.roots"
+    f = extract.get_function(TCS, "CallStackGraph._get_all_root_indices")
+    consts = extract.module_constants(TCS)
+    ex = pyvc.Exec(consts=consts, name=name)
+    k1, k2, p1, p2, d1, d2 = z3.Ints("key1 key2 parent1 parent2 depth1 depth2")
+    mk = lambda p, d: pyvc.Record("CallStackNode", {"parent": p, "depth": d, "height": z3.Int(f"h_{p}"), "device": z3.Int(f"dev_{p}"), "children": []})
+    nodes = {k1: mk(p1, d1), k2: mk(p2, d2)}
+    selfrec = pyvc.Record("CallStackGraph", {"nodes": nodes, "root_index": z3.Int("root_index")})
+    outs = ex.run_function(extract.stripped(f), {"self": selfrec}, [k1 != k2])
+    rets = [o for o in outs if o.kind == "ret"]
+    if len(rets) != 1 or not isinstance(rets[0].value, list):
+        raise pyvc.Unsupported("_get_all_root_indices does not return one list")
+    elems = rets[0].value
+
+    def member(k):
+        alts = []
+        for e in elems:
+            c, v = (e.cond, e.value) if isinstance(e, pyvc.Guarded) else (True, e)
+            alts.append(pyvc.z_and(c, to_z3(v) == k))
+        return to_z3(pyvc.z_or(*alts))
+
+    mv = {"key1": k1, "key2": k2, "parent1": p1, "parent2": p2}
+    vcs = [core.VC(pv.name, pv.hyps, pv.goal, "vc", [f.fq], {}, note=pv.note) for pv in ex.vcs]
+    for j, k in ((1, k1), (2, k2)):
+        vcs.append(core.VC(f"{name}.returned_iff_not_an_event_id.key{j}", [k1 != k2], member(k) == (k < 0), "vc", [f.fq], mv,
+                           note="for every node map (two arbitrary distinct keys with arbitrary parents stand for all of them: the selection is per key): a key is a root iff it is negative"))
+    vcs.append(core.VC(f"{name}.guard.canary_false", [k1 != k2, k1 < 0, k2 >= 0], z3.BoolVal(False), "canary", [f.fq]))
+    # the whole-graph driver of _compute_depth
+    g = extract.get_function(TCS, "CallStackGraph._compute_depth")
+    node = copy.deepcopy(extract.stripped(g))
+    node.body = [st for st in node.body if not isinstance(st, ast.FunctionDef)]
+    calls: List[Any] = []
+
+    @pyvc.intrinsic
+    def bfs(exq, pc, env, args, kwargs):
+        calls.append((args[0], args[1]))
+        return None
+
+    r1, r2 = z3.Ints("root1 root2")
+    ex2 = pyvc.Exec(consts=consts, name=f"{name}.driver")
+    ex2.methods["CallStackGraph._get_all_root_indices"] = lambda exq, pc, env, obj, args, kwargs: [r1, r2]
+    ex2.run_function(node, {"self": pyvc.Record("CallStackGraph", {"nodes": {}, "root_index": r1}), "root_index": None, "apply_whole_graph": True, "_bfs": bfs}, [])
+    ok = len(calls) == 2 and calls[0][0] is r1 and calls[1][0] is r2
+    vcs.append(core.VC(f"{name}.whole_graph_pass_starts_at_every_root", [], z3.BoolVal(ok), "vc", [g.fq], {}, note=f"{len(calls)} _bfs start(s) for two roots"))
+    if ok:
+        vcs.append(core.VC(f"{name}.roots_get_depth_minus_one", [], z3.And(*[to_z3(d) == -2 for _, d in calls]), "vc", [g.fq], {},
+                           note="_bfs(root, -2): the root gets depth -1, its children (the top-level events) depth 0"))
+    return vcs
+
+
 def height_vcs() -> List[core.VC]:
     name = f"{PROP}.compute_height.dfs"
     f = extract.get_function(TCS, "CallStackGraph._compute_height")
@@ -359,16 +415,19 @@ def _case(seed: int) -> Dict[str, Any]:
     if two_ranks:
         nthreads = 2  # a ProfilerStep thread and a backward thread on every rank
     kw = dict(n_threads=nthreads, n_streams=1 + seed % 2, steps=1 + seed % 2, p_launch=0.7, p_zero=0.0, min_launch_q=1, p_sync=0.0, p_missing_kernel=0.1, p_orphan_kernel=0.05, n_top=2 + seed % 2, max_depth=3)
+    if seed % 2 == 1:  # the backward / other host threads have smaller ids than the profiler-step thread: their call stacks (and nodes) are built first
+        kw.update(main_tid=40, other_tids_below=True)
+    bwd_tid = (kw.get("main_tid", 1) + 1) if seed % 4 != 3 else 3
     per_rank = gen.gen_trace_set(seed, n_ranks=2 if two_ranks else 1, **kw)
     for evs in per_rank.values():
         if seed % 3 == 0 or two_ranks:  # main-thread backward annotations, some ending exactly where a backward-thread op ends
             steps = [e for e in evs if str(e.get("name", "")).startswith("ProfilerStep")]
             for s in steps:
                 b0, b1 = s["ts"] + s["dur"] // 2, s["ts"] + s["dur"]
-                evs.append(synth.annotation("## backward ##", b0, b1 - b0))
+                evs.append(synth.annotation("## backward ##", b0, b1 - b0, tid=kw.get("main_tid", 1)))
                 if nthreads == 1:  # a backward thread of its own (the generator drew none): operators sharing the annotation's start / end instants
-                    evs.append(synth.host_op("autograd::engine::evaluate_function: EdgeBackward", b1 - 10, 10, tid=2))
-                    evs.append(synth.host_op("autograd::engine::evaluate_function: StartBackward", b0, 5, tid=2))
+                    evs.append(synth.host_op("autograd::engine::evaluate_function: EdgeBackward", b1 - 10, 10, tid=bwd_tid))
+                    evs.append(synth.host_op("autograd::engine::evaluate_function: StartBackward", b0, 5, tid=bwd_tid))
     if two_ranks:
         return _run_case(seed, per_rank, check_rank=1, ranks=None)
     return _run_case(seed, per_rank, builds=2 if seed % 4 == 1 else 1)
@@ -489,6 +548,14 @@ def _run_case(seed: int, per_rank, check_rank: int = 0, ranks=(0,), builds: int 
     return {"n_checks": n, "fails": fails, "nontrivial": n > 0, "sample": {"seed": seed, "threads": nthreads}}
 
 
+def replay(ctx, rec: Dict[str, Any]) -> Dict[str, Any]:
+    if ".roots." in rec.get("name", ""):
+        from contracts import C03
+
+        return C03.replay_roots(rec)
+    return {"confirmed": False, "why": "no replay for this obligation"}
+
+
 def bounded(ctx):
     from hv import rt
 
@@ -500,6 +567,7 @@ def bounded(ctx):
 
 def units(ctx):
     return [core.Unit(f"{PROP}.compute_depth", depth_vcs, [TCS + ".CallStackGraph._compute_depth._bfs"]),
+            core.Unit(f"{PROP}.roots", roots_vcs, [TCS + ".CallStackGraph._get_all_root_indices", TCS + ".CallStackGraph._compute_depth"]),
             core.Unit(f"{PROP}.compute_height", height_vcs, [TCS + ".CallStackGraph._compute_height._dfs"]),
             core.Unit(f"{PROP}.kernel_info", kernel_info_vcs, [TCS + ".CallStackGraph._add_kernel_info_to_cpu_ops._dfs"]),
             core.Unit(f"{PROP}.normalize", normalize_vcs, [TCG + ".CallGraph._normalize_stack_columns"]),
@@ -513,7 +581,7 @@ SPEC = Spec(
     functions=[(TCS, "CallStackGraph._compute_depth"), (TCS, "CallStackGraph._compute_height"), (TCS, "CallStackGraph._add_kernel_info_to_cpu_ops"), (TCS, "CallStackGraph._link_cpu_and_gpu"),
                (TCG, "CallGraph._normalize_stack_columns"), (TCG, "CallGraph._build_call_stacks"), (TCG, "CallGraph._link_main_and_bwd_stacks"),
                (TCS, "CallStackGraph.update_parent_of_first_layer_nodes")],
-    units=units, bounded=[Bounded("callgraph_vs_recomputation", bounded)],
+    units=units, replay=replay, bounded=[Bounded("callgraph_vs_recomputation", bounded)],
     trusted=["structural induction over the finite tree (recursive calls replaced by the function's contract on the children); fold meta-lemma for the ghost folds",
              "machine arithmetic treated as mathematical: numpy scalar types of the duration / timestamp columns are NOT modelled (the bounded stage uses int8/int16 duration columns)",
              "C03 for the shape of the tree; C01 for end = ts + dur of the loaded frame"],
